@@ -10,6 +10,12 @@ NOTES = (
 NOT_APPLICABLE = {}
 
 CHECKS = {
+    "C01": {
+        "text": "Model-based testing of edit/query histories: generated sequences of add (start, end, both), complete, remove (start/end/both), set_quarter_duration, get_or_add_point and every query (iter_all with cls/start/end/include_subclasses/mode, iter_prev/iter_next, get_point, quarter_durations) over 55 timed-object classes are applied in lock-step to a Part and to a dict-based reference timeline; the complete structural invariant (ordering, links, listings, start/end identity, quarter in force, quarter map) is evaluated after every step, also after an exception. Exploration: thousands of shrunk-on-failure histories, no exhaustiveness claim.",
+        "design_ref": "DESIGN.md 4 C01",
+        "note": "Histories only add an object at an endpoint it does not occupy and never with start > end (documented contract). Intra-point order is compared as a multiset. Both readings of 'next later change' are accepted when a redundant table entry makes them differ.",
+        "technique": "property-based testing with Hypothesis: stateful/model-based operation histories against a reference model, invariant after every step",
+    },
     "C12": {
         "text": "Exhaustive enumeration of every finite conversion domain named by the property (spelling, MIDI, note names, keys, modes, clefs, symbolic durations, tuplets, tempo units, interval classes, table agreement, frequency) against integer/Fraction arithmetic, plus Hypothesis sampling of (ppq, mpq, time) for tick conversion with scalars and arrays of several dtypes. Enumerated parts are complete; sampled part is exploration.",
         "design_ref": "DESIGN.md 4 C12",
